@@ -1,10 +1,13 @@
 #!/bin/bash
-# selftest.sh <Cxx> — checker validation (thorough tier): every seeded breakage of the
-# real tree that belongs to the property must be reported as a VIOLATION, in a scratch
-# copy of /repo outside /repo and /verif that is removed afterwards. A patch that no
-# longer applies to the current tree is skipped (the tree under test may have been
-# edited); a patch that applies but is not detected makes the self-test fail (exit 2:
-# the checker regressed — never a VIOLATION of the property).
+# selftest.sh <Cxx> — checker validation (thorough tier), both directions, on scratch copies of /repo
+# outside /repo and /verif that are removed afterwards:
+#   (1) every seeded breakage that belongs to the property (mutants/<Cxx>-*.patch, and the independently
+#       seeded changes seeded/*/patch.diff whose meta.json names the property or lists it under
+#       also_detected_by) must be reported as a VIOLATION of the property;
+#   (2) every behaviour-preserving edit in benign/*.patch must leave the check silent (exit 0).
+# A patch that no longer applies to the current tree is skipped (the tree under test may have been edited).
+# A miss in (1) or an alarm in (2) makes the self-test fail with exit 2 (the checker regressed) — never a
+# VIOLATION of the property.
 set -u
 cd "$(dirname "$0")"
 PROP="${1:?property id}"
@@ -13,34 +16,75 @@ OUT=evidence/selftest
 mkdir -p "$OUT"
 export GOFLAGS=-mod=mod GOPROXY=off GOSUMDB=off GOTOOLCHAIN=local GOWORK=off
 export PATH=/opt/veriftools/go1.26.8/bin:$PATH
-patches=()
-for f in mutants/${PROP}-*.patch; do [ -f "$f" ] && patches+=("$f"); done
+export PROP REPO VERIF_DIR="$(pwd)"
+JOBS="${SELFTEST_JOBS:-6}"
+
+breaking=()
+for f in mutants/${PROP}-*.patch; do [ -f "$f" ] && breaking+=("$f"); done
 for d in seeded/*/; do
   [ -f "$d/meta.json" ] || continue
   if grep -q "\"property\": *\"$PROP\"" "$d/meta.json" || grep -q "\"also_detected_by\":.*\"$PROP\"" "$d/meta.json"; then
-    [ -f "$d/patch.diff" ] && patches+=("$d/patch.diff")
+    [ -f "$d/patch.diff" ] && breaking+=("${d}patch.diff")
   fi
 done
-detected=0; missed=0; skipped=0; results=()
-for pf in "${patches[@]}"; do
-  tmp=$(mktemp -d /tmp/kcpverif-mut.XXXXXX)
+benign=()
+for f in benign/*.patch; do [ -f "$f" ] && benign+=("$f"); done
+
+run_one() { # kind patch -> one JSON line on stdout
+  kind="$1"; pf="$2"
+  tmp=$(mktemp -d /tmp/kcpverif-st.XXXXXX)
   rsync -a --exclude .git "$REPO"/ "$tmp"/repo/
-  if ! (cd "$tmp/repo" && patch -p1 -s --no-backup-if-mismatch < "$OLDPWD/$pf") >/dev/null 2>&1; then
-    skipped=$((skipped+1)); results+=("{\"patch\":\"$pf\",\"result\":\"skipped (does not apply to the current tree)\"}")
-    rm -rf "$tmp"; continue
+  if ! (cd "$tmp/repo" && patch -p1 -s --no-backup-if-mismatch < "$VERIF_DIR/$pf") >/dev/null 2>&1; then
+    echo "{\"kind\":\"$kind\",\"patch\":\"$pf\",\"result\":\"skipped (does not apply to the current tree)\"}"
+    rm -rf "$tmp"; return
   fi
-  log=$(./bin/kcpverif -prop "$PROP" -tier quick -repo "$tmp/repo" -verif "$(pwd)" -evidence "$tmp/ev" 2>&1)
-  rc=$?
+  log=$("$VERIF_DIR"/bin/kcpverif -prop "$PROP" -tier quick -repo "$tmp/repo" -verif "$VERIF_DIR" -evidence "$tmp/ev" 2>&1); rc=$?
   rules=$(echo "$log" | grep -o '\[C[0-9]*\.[A-Za-z0-9]*\]' | sort -u | tr -d '[]' | tr '\n' ' ')
-  if [ $rc -eq 1 ] && echo "$log" | grep -q "^VIOLATION property=$PROP"; then
-    detected=$((detected+1)); results+=("{\"patch\":\"$pf\",\"result\":\"detected\",\"rules\":\"$rules\"}")
+  if [ "$kind" = breaking ]; then
+    if [ $rc -eq 1 ] && echo "$log" | grep -q "^VIOLATION property=$PROP"; then
+      echo "{\"kind\":\"$kind\",\"patch\":\"$pf\",\"result\":\"detected\",\"rules\":\"$rules\"}"
+    else
+      echo "{\"kind\":\"$kind\",\"patch\":\"$pf\",\"result\":\"MISSED (exit $rc)\"}"
+    fi
   else
-    missed=$((missed+1)); results+=("{\"patch\":\"$pf\",\"result\":\"MISSED (exit $rc)\"}")
-    echo "SELFTEST-MISSED property=$PROP patch=$pf exit=$rc"
+    if [ $rc -eq 0 ]; then
+      echo "{\"kind\":\"$kind\",\"patch\":\"$pf\",\"result\":\"silent\"}"
+    else
+      echo "{\"kind\":\"$kind\",\"patch\":\"$pf\",\"result\":\"FALSE-ALARM (exit $rc)\",\"rules\":\"$rules\"}"
+    fi
   fi
   rm -rf "$tmp"
-done
-( IFS=,; echo "{\"property\":\"$PROP\",\"patches\":${#patches[@]},\"detected\":$detected,\"missed\":$missed,\"skipped\":$skipped,\"results\":[${results[*]:-}]}" ) > "$OUT/$PROP.json"
-echo "selftest $PROP: patches=${#patches[@]} detected=$detected missed=$missed skipped=$skipped"
-[ $missed -eq 0 ] || exit 2
-exit 0
+}
+export -f run_one
+
+res=$(mktemp /tmp/kcpverif-st-res.XXXXXX)
+{
+  for pf in "${breaking[@]:-}"; do [ -n "$pf" ] && echo "breaking $pf"; done
+  for pf in "${benign[@]:-}"; do [ -n "$pf" ] && echo "benign $pf"; done
+} | xargs -P "$JOBS" -L 1 bash -c 'run_one "$0" "$1"' > "$res"
+
+python3 - "$res" "$PROP" "$OUT/$PROP.json" <<'EOF'
+import json, sys
+rows = [json.loads(l) for l in open(sys.argv[1]) if l.strip()]
+prop = sys.argv[2]
+br = sorted([r for r in rows if r["kind"] == "breaking"], key=lambda r: r["patch"])
+bn = sorted([r for r in rows if r["kind"] == "benign"], key=lambda r: r["patch"])
+det = sum(r["result"] == "detected" for r in br)
+mis = [r for r in br if r["result"].startswith("MISSED")]
+skp = sum(r["result"].startswith("skipped") for r in br)
+sil = sum(r["result"] == "silent" for r in bn)
+fal = [r for r in bn if r["result"].startswith("FALSE-ALARM")]
+bskp = sum(r["result"].startswith("skipped") for r in bn)
+out = {"property": prop, "patches": len(br), "detected": det, "missed": len(mis), "skipped": skp,
+       "results": [{k: v for k, v in r.items() if k != "kind"} for r in br],
+       "benign_edits": len(bn), "benign_silent": sil, "benign_false_alarms": len(fal), "benign_skipped": bskp,
+       "benign_results": [{k: v for k, v in r.items() if k != "kind"} for r in bn if r["result"] != "silent"]}
+json.dump(out, open(sys.argv[3], "w"), indent=1)
+for r in mis: print(f"SELFTEST-MISSED property={prop} patch={r['patch']} {r['result']}")
+for r in fal: print(f"SELFTEST-FALSE-ALARM property={prop} patch={r['patch']} rules={r.get('rules','')}")
+print(f"selftest {prop}: breaking patches={len(br)} detected={det} missed={len(mis)} skipped={skp}; benign edits={len(bn)} silent={sil} false-alarms={len(fal)} skipped={bskp}")
+sys.exit(2 if mis or fal else 0)
+EOF
+rc=$?
+rm -f "$res"
+exit $rc
